@@ -16,6 +16,15 @@ UTC = datetime.timezone.utc
 T0 = datetime.datetime(2000, 1, 1, tzinfo=UTC)
 
 
+def failure(msg: str, k: int) -> BaseException:
+    """Handlers and jobs fail in the ways real ones do: with and without a message (a bare ``raise RuntimeError``, a
+    failed ``assert``, the ``TimeoutError`` of ``asyncio.wait_for`` carry no arguments)."""
+    import asyncio as _a
+    shapes = [lambda: RuntimeError(msg), lambda: RuntimeError(), lambda: AssertionError(), lambda: _a.TimeoutError(),
+              lambda: KeyError(msg), lambda: Exception(), lambda: ValueError(msg, k), lambda: RuntimeError(msg)]
+    return shapes[k % len(shapes)]()
+
+
 def T(s: float, tz_minutes: int = 0) -> datetime.datetime:
     t = T0 + datetime.timedelta(seconds=s)
     if tz_minutes:
@@ -165,13 +174,13 @@ class BtRun:
                 run._schedule(child, by=f"job{jid}", base_now=run._now())
             tr.add("end", "job", jid, None, when, run._now())
             if spec.get("fail"):
-                raise RuntimeError(f"job {jid} fails")
+                raise failure(f"job {jid} fails", jid)
         if spec.get("plain"):
             def plain_job():
                 if spec.get("sync_fail"):
                     run.trace.add("start", "job", jid, None, when, run._now())
                     run.trace.add("end", "job", jid, None, when, run._now())
-                    raise RuntimeError(f"job {jid} fails while being called")
+                    raise failure(f"job {jid} fails while being called", jid + 1)
                 return job()
             return plain_job
         return job
@@ -209,7 +218,7 @@ class BtRun:
                     run._schedule(sj["job"], by=f"h{hid}", base_now=run._now())
             tr.add("end", kind, hid, eid, S(e.when), run._now())
             if n in sub.get("fail_on", []):
-                raise RuntimeError(f"handler {hid} fails")
+                raise failure(f"handler {hid} fails", hid + n)
         if sub.get("plain"):
             # a plain callable returning an awaitable; on the scripted invocations it raises *before* returning it
             sync_count = [0]
@@ -222,7 +231,7 @@ class BtRun:
                     eid = getattr(e, "eid", None)
                     run.trace.add("start", kind, hid, eid, S(e.when), run._now())
                     run.trace.add("end", kind, hid, eid, S(e.when), run._now())
-                    raise RuntimeError(f"handler {hid} fails while being called")
+                    raise failure(f"handler {hid} fails while being called", hid + k)
                 return handler(e)
             return plain_handler
         return handler
